@@ -12,5 +12,6 @@ def S(*names):
 
 
 def install(eng):
-    from . import core, collections, strings, env, sysenv, sql  # noqa: F401  (registration side effects)
+    from . import core, collections, strings, env, sysenv, sql, futures  # noqa: F401  (registration side effects; futures last: it
+    # replaces the identity-less Waker summaries of sysenv)
     eng.summaries.update(REG)
